@@ -133,7 +133,9 @@ def gen(seed: int, tier: str) -> dict[str, Any]:
             addr = rng.choice(GAS + INTERNALS) if rng.random() < 0.85 else rng.choice(GAS)
             ops.append({"t": round(t, 6), "op": "tg", "n": i + 1, "addr": addr,
                         "dir": rng.choice(["in", "in", "out"]), "via": rng.choice(["queue", "wire"])})
-    return {"seed": seed, "tier": "S", "config": {"batch": 1}, "ops": ops}
+    # in some runs the project uses the free group address format: matching a 3-level filter pattern raises there. Such a
+    # registration is a misconfiguration - what is judged is that every *other* callback and the devices still get the telegram
+    return {"seed": seed, "tier": "S", "config": {"batch": 1, "free_format": rng.random() < 0.1}, "ops": ops}
 
 
 def run(plan: dict[str, Any]) -> dict[str, Any]:
@@ -146,6 +148,11 @@ def run(plan: dict[str, Any]) -> dict[str, Any]:
     R = Run(plan, max_time=2000.0)
     loop = R.loop
     xknx, stub, q = make_xknx(R)
+    free = bool(plan["config"].get("free_format"))
+    from xknx.telegram.address import GroupAddressType
+    if free:
+        GroupAddress.address_format = GroupAddressType.FREE      # what XKNX(address_format=FREE) sets; reset by the next XKNX()
+        R.extra_faults["free_address_format_with_level3_filters"] += 1
     active: dict[int, dict[str, Any]] = {}      # harness model of registrations (id -> reg)
     handles: dict[int, Any] = {}
     order: list[int] = []
@@ -250,13 +257,18 @@ def run(plan: dict[str, Any]) -> dict[str, Any]:
         await asyncio.sleep(tl + 1.0)
         await xknx.stop()
 
-    R.execute(main())
+    try:
+        R.execute(main())
+    finally:
+        if free:
+            GroupAddress.address_format = GroupAddressType.LONG
     abstract = oracle(R, plan, dispatches, dev_seen)
     R.check_escapes("C34.no-escape")
     return R.result(nontrivial=R.probes["nontrivial"] > 0, abstract=abstract)
 
 
 def oracle(R, plan, dispatches, dev_seen):
+    free = bool(plan["config"].get("free_format"))
     tgs = [o for o in plan["ops"] if o["op"] == "tg"]
     abstract: list[Any] = []
     seen_tids = [d["tid"] for d in dispatches]
@@ -271,6 +283,12 @@ def oracle(R, plan, dispatches, dev_seen):
         snap = d["snapshot"]
         exp = [r["id"] for r in snap if reg_matches(r, d["addr"], d["out"])]
         calls = d["calls"]
+        if free and not isinstance(d["addr"], str):
+            # registrations whose filter evaluation raises under this format are unjudged for group telegrams
+            odd = {r["id"] for r in snap if any(not f.startswith("i") for f in (r["filters"] or []))}
+            exp = [e for e in exp if e not in odd]
+            calls = [c for c in calls if c not in odd]
+            snap = [r for r in snap if r["id"] not in odd]
         vec = tuple(1 if r["id"] in exp else 0 for r in snap)
         abstract.append((d["out"], isinstance(d["addr"], str), vec, bool(d["mutated"])))
         if len(snap) >= 2 and 0 < sum(vec) < len(vec):
